@@ -59,7 +59,7 @@ const (
 	lgLvlFile = "log/custom_level.go"
 )
 
-// functions to translate, in output order (a definition precedes its uses)
+// functions to translate (output order, unless the calls between them demand another)
 var lgFuncs = []struct{ file, key string }{
 	{lgLvlFile, "CustomLevelLogger"},
 	{lgLvlFile, "customLevelCoreWrapper.Level"},
@@ -1224,9 +1224,35 @@ func runLog(repo, out string) {
 		}
 	}
 	b.WriteString("-/\nnamespace Generated.GoLog\nopen LogRt\nset_option linter.unusedVariables false\n\n")
-	var names []string
+	// output order: a definition precedes its uses (the order of lgFuncs where the calls leave a choice)
+	var order []*lgFn
+	state := map[*lgFn]int{}
+	var visit func(f *lgFn)
+	visit = func(f *lgFn) {
+		switch state[f] {
+		case 1:
+			fail("log: %s: %s is recursive", at(f.decl), f.key)
+		case 2:
+			return
+		}
+		state[f] = 1
+		cs := calls(f)
+		for _, w := range lgFuncs {
+			for _, g := range cs {
+				if g.key == w.key && g != f {
+					visit(g)
+				}
+			}
+		}
+		state[f] = 2
+		order = append(order, f)
+	}
 	for _, w := range lgFuncs {
-		f := t.fns[w.key]
+		visit(t.fns[w.key])
+	}
+	var names []string
+	for _, f := range order {
+		w := f
 		t.cur, t.env, t.out, t.tmpN, t.loopEnv, t.nclos, t.lifted = f, nil, &strings.Builder{}, 0, 0, 0, nil
 		t.assigned = lgAssigned(f.decl)
 		t.pure = !f.mono
